@@ -65,7 +65,7 @@ func genNetConn(r *Rng, tier string, stat func(string)) []string {
 		stat("wrongtype")
 	}
 	for _, side := range []string{"read", "write"} {
-		for _, when := range []string{"idle-past", "idle-future", "active", "active-setpast", "active-setfuture"} {
+		for _, when := range []string{"idle-past", "idle-future", "active", "active-setpast", "active-setfuture", "idle-midmessage-past", "idle-midmessage-future"} {
 			for k := 0; k < 2; k++ {
 				out = append(out, fmt.Sprintf("kind=deadline side=%s when=%s", side, when))
 				stat("deadline")
@@ -229,6 +229,37 @@ func runNetConn(kv map[string]string) string {
 			if read {
 				go func() { time.Sleep(10 * time.Millisecond); s.Write(ctx, websocket.MessageBinary, []byte("pong")) }()
 				_, e3 = a.Read(make([]byte, 4))
+			} else {
+				_, e3 = a.Write([]byte("data"))
+			}
+			return fmt.Sprintf("first=%s second=%s afterreset=%s", ncErr(e1), ncErr(e2), ncErr(e3))
+		case "idle-midmessage-past", "idle-midmessage-future":
+			// the deadline passes while no call is active but a message is only partly read (read side) / the connection has
+			// been written to (write side): the next call must fail with the deadline error all the same
+			if read {
+				if err := s.Write(ctx, websocket.MessageBinary, make([]byte, 200)); err != nil {
+					return "setup=" + errClass(err)
+				}
+				if _, err := a.Read(make([]byte, 50)); err != nil { // a prefix: the message stays open in the adapter
+					return "setup=" + errClass(err)
+				}
+			} else {
+				if _, err := a.Write([]byte("first")); err != nil {
+					return "setup=" + errClass(err)
+				}
+			}
+			if kv["when"] == "idle-midmessage-past" {
+				set(time.Now().Add(-time.Second))
+			} else {
+				set(time.Now().Add(20 * time.Millisecond))
+			}
+			time.Sleep(80 * time.Millisecond)
+			e1 := call()
+			e2 := call()
+			set(time.Time{})
+			var e3 error
+			if read {
+				_, e3 = a.Read(make([]byte, 50)) // the rest of the message is still there
 			} else {
 				_, e3 = a.Write([]byte("data"))
 			}
